@@ -1,7 +1,7 @@
 SPECIFICATION GSpec
 CONSTANTS
   Params = {"P1", "P2"}
-  Vals = {"v0", "v1", "v2"}
+  Vals = {"v0", "v1"}
   NChunks = 2
   AutoChoices = {{"P1"}}
   HwChoices = {{"P2"}}
